@@ -49,6 +49,91 @@ class ErrGen(H.Gen):
         return super().op(g)
 
 
+# ---- rejected calls OUTSIDE the model (malformed arguments): implementation-side atomicity only -------------------------------
+def plain_snapshot(g, kind):
+    """identity-free content of a graph, robust to values the tokeniser does not know (per-node lists and index groups sorted:
+    their internal order is what a restored edge may change, and no query shows it)"""
+    def es(lst):
+        return sorted((e.source.identifier, str(e.get_edge_type()), e.destination.identifier, json.dumps(e.meta, sort_keys=True, default=str)) for e in lst)
+    st = dict(d=json.dumps(g.to_dict(), sort_keys=True, default=str),
+              nodes=[(n.identifier, str(n.variable_type), json.dumps(n.meta, sort_keys=True, default=str), es(n.get_inbound_edges()), es(n.get_outbound_edges()))
+                     for n in g.get_nodes()],
+              src=sorted((k, sorted(v)) for k, v in g._edges_by_source.items() if v),
+              dst=sorted((k, sorted(v)) for k, v in g._edges_by_destination.items() if v), edges=es(g.get_edges()))
+    if kind == 'TS':
+        st['lag'] = sorted((k, sorted(n.identifier for n in v)) for k, v in g._lag_to_nodes.items() if v)
+        st['var'] = sorted((k, sorted(n.identifier for n in v)) for k, v in g._variable_name_to_nodes.items() if v)
+    return json.dumps(st, sort_keys=True, default=str)
+
+
+def malformed_calls(g, rng, kind):
+    from cai_causal_graph.graph_components import Edge, Node
+    names = g.get_node_names() or ['a']
+    n, m = rng.choice(names), rng.choice(names)
+    es = g.get_edge_pairs()
+    s, d = rng.choice(es) if es else (n, m)
+    new = 'fresh' if kind == 'Plain' else rng.choice(['fresh lag(n=1)', 'fresh future(n=3)', 'fresh'])
+    L = [('replace_node in place: invalid variable_type string + metadata', lambda: g.replace_node(n, variable_type='numeric ', meta={'q': 1})),
+         ('replace_node in place: variable_type=float + metadata', lambda: g.replace_node(n, variable_type=float, meta={'q': [1]})),
+         ('replace_node by new id: invalid variable_type', lambda: g.replace_node(n, new, variable_type='bogus')),
+         ('add_node: invalid variable_type', lambda: g.add_node(new, variable_type='bogus', meta={'a': 1})),
+         ('add_node: no arguments', lambda: g.add_node()),
+         ('add_edge: missing destination', lambda: g.add_edge(n)),
+         ('add_edge: metadata not a dictionary', lambda: g.add_edge(new, n, meta='str')),
+         ('add_node: metadata not a dictionary', lambda: g.add_node(new, meta=[1])),
+         ('change_edge_type: None', lambda: g.change_edge_type(s, d, None)),
+         ('replace_edge: metadata not a dictionary', lambda: g.replace_edge(s, d, new, n, meta=3)),
+         ('replace_edge: invalid edge_type', lambda: g.replace_edge(s, d, n, new, edge_type='bogus')),
+         ('delete_edge: invalid edge_type', lambda: g.delete_edge(s, d, edge_type='bogus')),
+         ('delete_node: None', lambda: g.delete_node(None)),
+         ('add_edge: edge object together with a source', lambda: g.add_edge(edge=Edge(Node(n), Node(new)), source=n))]
+    if kind == 'TS':
+        L += [('add_node: variable_name without time_lag', lambda: g.add_node(variable_name='x')),
+              ('add_node: time_lag given as a string', lambda: g.add_node(variable_name='zq', time_lag='1')),
+              ('add_time_edge: non-integer lag', lambda: g.add_time_edge('zq', 1.5, 'y', 0)),
+              ('replace_node: non-integer lag', lambda: g.replace_node(n, time_lag=1.5)),
+              ('replace_node: variable_name containing a marker', lambda: g.replace_node(n, variable_name='q lag(n=1)', time_lag=0))]
+    return L
+
+
+def off_model_atomicity(run, tier, seed):
+    import random
+    rng = random.Random(seed + 303)
+    nstates = 120 if tier == 'quick' else 1500
+    cells = Counter()
+    bad = []
+    for it in range(nstates):
+        kind = 'Plain' if it % 2 == 0 else 'TS'
+        gen = ErrGen(rng, kind, True)
+        g = H.new_graph(kind)
+        ops = []
+        for _ in range(rng.randint(2, 14)):
+            op = gen.op(g)
+            ops.append(op)
+            H.apply_op(g, op)
+        nlab = len(malformed_calls(g, random.Random(it), kind))
+        for k in range(nlab):
+            g = H.new_graph(kind)
+            for op in ops:
+                H.apply_op(g, op)
+            if k % 3 == 0:
+                H.warm_caches(g, rng, 0.3)
+            lab, f = malformed_calls(g, random.Random(it), kind)[k]
+            before = plain_snapshot(g, kind)
+            try:
+                f()
+            except Exception as e:  # noqa: BLE001
+                cells[(lab, type(e).__name__)] += 1
+                if plain_snapshot(g, kind) != before and len(bad) < 3:
+                    bad.append(dict(kind=kind, ops=ops, call=lab, raised=type(e).__name__,
+                                    why=f'{lab} raised {type(e).__name__} but the graph changed (nodes now {g.get_node_names()}, edges now '
+                                        f'{[(x.source.identifier, str(x.get_edge_type()), x.destination.identifier) for x in g.get_edges()]})'))
+    run.coverage['off_model_rejected_calls'] = {f'{k[0]} / {k[1]}': v for k, v in sorted(cells.items())}
+    for b in bad[:2]:
+        run.violation(b, note=b['why'][:200])
+    return bad
+
+
 def check(run, tier, seed):
     CELLS.clear()
     HP.history_property(run, tier, seed, pid='C03', oracle=unchanged, n_quick=240, n_thorough=4000,
@@ -58,6 +143,7 @@ def check(run, tier, seed):
                                  'observation is snapshotted before and after EVERY raising single-element mutator on the real graph.')
     run.coverage['raising_calls_by_mutator_and_error'] = {f'{k[0]}/{k[1]}': v for k, v in sorted(CELLS.items())}
     run.coverage['raising_single_element_calls'] = sum(CELLS.values())
+    off_model_atomicity(run, tier, seed)
 
 
 def replay(run, path):
